@@ -370,6 +370,8 @@ class MonitorNet(DExplore):
     configs = {"net-any-loss": dict(app=False, lose_any=True),
                # the link goes silent, the Leader's monitor hangs up, a new generation converges - and the transport of the OLD connection may report
                # its loss at any later moment (a peer that stopped answering does not acknowledge the FIN either)
+               # only the Follower's end of the link in use learns of its loss; the Leader (side A here) has a busy application that keeps writing
+               "net-half-open-busy-writer": dict(app=True, half_open=True, sides=("cc" * 8, "11" * 8)),
                "net-silent-late-loss-report": dict(app=False, silent_after_connect=True, late_loss_report=True)}
 
     def __init__(self, cfg, plo, phi, k):
@@ -381,8 +383,21 @@ class MonitorNet(DExplore):
             return False
         sim._intervals_passed = True
         for _ in range(8):
+            if sim.half_open:
+                # a busy application on the Leader's side: it writes to its subchannel before every timer expiry (its own traffic says nothing
+                # about whether the peer is alive)
+                p = sim.protos.get("p0")
+                if p is not None and getattr(p, "transport", None) is not None and "p0" not in sim.closed:
+                    sim.w.sides[0].call("write", p.transport.write, b"tick")
+            if sim.half_open:
+                # ... and it writes more often than once per ping interval: 20 s pass between two writes (ping interval 30 s), 160 s in all
+                sim.w.reactor.advance(20.0)
+                sim.w.turn()
+                continue
             if not sim.w.fire_timer():
                 break
+            sim.w.settle()
+        if sim.half_open:
             sim.w.settle()
         return True
 
@@ -411,7 +426,7 @@ class MonitorNet(DExplore):
         if when == "settled" and getattr(sim, "_intervals_passed", False) and not any(sim.stopped_req):
             for i, s_ in enumerate(w.sides):
                 if s_.m._my_role is LEADER and s_.m._connection is not None:
-                    live = [p for (pipe, p) in w.selected(i)]
+                    live = [p for (pipe, p) in w.selected(i) if not pipe.peer.lost]      # (a half-open link is gone, too)
                     if s_.m._connection not in live:
                         out.append(("the Leader still holds a connection that is gone although several ping intervals have passed", "%s is %s" % (s_.name, s_.state())))
         return out
